@@ -23,9 +23,43 @@ import (
 // C07: getSignaturesForAddress paging slices the newest-first history correctly.
 func init() { runner.Register("C07", scenarioC07) }
 
+// c07colliding searches an address that is not stored in b's pubkey index but shares bucket and
+// truncated hash with one that is.
+func c07colliding(x *runner.X, b *builtWorld, cr *dsim.Rand) (solana.PublicKey, bool) {
+	var pk solana.PublicKey
+	stored := map[string]bool{}
+	for _, a := range b.w.Addresses {
+		stored[string(a[:])] = true
+	}
+	paths, _ := filepath.Glob(filepath.Join(b.dir, "indexes", "*gsfa*", "*pubkey-to-offset-and-size*"))
+	if len(paths) != 1 {
+		x.Probe(fmt.Sprintf("c07.collision-search-paths-%d", len(paths)))
+		return pk, false
+	}
+	ks, err := collidingAbsentKeys(paths[0], stored, func(i int) []byte { return cr.Bytes(32) }, 2500000, 1)
+	if err != nil {
+		x.Probe("c07.collision-search-error")
+		x.Note("collision_search_error", err.Error())
+		return pk, false
+	}
+	if len(ks) == 0 {
+		x.Probe("c07.collision-search-none")
+		return pk, false
+	}
+	copy(pk[:], ks[0])
+	return pk, true
+}
+
 func scenarioC07(x *runner.X) {
 	t := x.Tape
 	engineKnobs(nil)
+	if t.Bool(0.6) {
+		// the address index is always built for 1 000 000 keys, i.e. 100 buckets at the real bucket
+		// size: a collision search against a handful of stored addresses is then hopeless. One big
+		// bucket (a legal value of the tuning constant) makes in-bucket collisions findable.
+		engineKnobs(map[string]int{"compactindex.targetEntriesPerBucket": 1 << 20})
+		x.Note("entries_per_bucket_knob", 1<<20)
+	}
 	n := t.Range(1, 3)
 	// small account universe: addresses recur within and across epochs
 	pool := []uint64{1, 2, 3, 77, 600}
@@ -36,10 +70,18 @@ func scenarioC07(x *runner.X) {
 	}
 	sort.Slice(epochs, func(i, j int) bool { return epochs[i] < epochs[j] })
 	var ws []*builtWorld
+	var collidingWithHistory []solana.PublicKey
 	for i, e := range epochs {
 		p := world.Params{Epoch: e, Salt: 7, NumBlocks: t.Range(1, 5), MaxEntries: t.Range(1, 2), MaxTxPerEntry: t.Range(1, 3), NumAccounts: t.Pick(6, 8, 10), MaxFrameBytes: t.Pick(200, 60, 1000), SkipProb: 0.4, MaxSkip: 4}
 		// the same salt in every epoch: the account universes overlap, an address can appear in any subset of the epochs
-		_ = i
+		if i > 0 && t.Bool(0.6) {
+			// an address that is absent from the next older epoch but collides, in that epoch's
+			// pubkey index, with an address stored there gets a history in this newer epoch
+			if pk, ok := c07colliding(x, ws[i-1], dsim.NewRand(t.SubRand().Uint64())); ok {
+				p.ExtraAccounts = append(p.ExtraAccounts, [32]byte(pk))
+				collidingWithHistory = append(collidingWithHistory, pk)
+			}
+		}
 		w := world.Generate(tapeRng{t.SubRand()}, p)
 		dir := filepath.Join(x.TempDir(), fmt.Sprintf("epoch-%d", e))
 		cfg, err := buildWorldDir(dir, w, true)
@@ -134,8 +176,17 @@ func scenarioC07(x *runner.X) {
 			}
 			return out
 		}
+		var targets []solana.PublicKey
+		for _, a := range collidingWithHistory {
+			if len(hist[a]) > 0 {
+				targets = append(targets, a)
+				x.Probe("c07.colliding-address-with-newer-history")
+			}
+		}
 		for ai := 0; ai < nAddr && ai < len(addrs); ai++ {
-			a := addrs[t.Intn(len(addrs))]
+			targets = append(targets, addrs[t.Intn(len(addrs))])
+		}
+		for _, a := range targets {
 			H := hist[a]
 			idx := map[solana.Signature]int{}
 			for i, tx := range H {
